@@ -106,6 +106,9 @@ func main() {
 		if i%3 == 2 {
 			cfg += "+argmods" // method arguments with optional / required modifiers and defaults
 		}
+		if i%4 == 1 {
+			cfg += "+i8" // the base type spelled i8 (Thrift's alias of byte) among the field / argument / return types
+		}
 		specs = append(specs, progSpec{Sub: fmt.Sprintf("p%d", i), Seed: rng.Int63(), Cfg: cfg})
 	}
 	var batches [][]progSpec
